@@ -256,6 +256,7 @@ static struct simk_fault *fault_at(int site);
  * simulated delivery is a plain call, so that edge is declared to TSan explicitly. */
 extern void __tsan_acquire(void *addr) __attribute__((weak));
 extern void __tsan_release(void *addr) __attribute__((weak));
+extern void __tsan_write_range(void *addr, unsigned long size) __attribute__((weak));
 static struct { int kind; void (*h)(int); uint64_t mask; int flags; } sigtab[65];
 static uint64_t proc_sigpend;
 #define SBIT(s) (1ULL << ((s) - 1))
@@ -977,6 +978,10 @@ static int real_wait(int prim, int epfd, struct epoll_event *ev, int max, struct
 			int r = epoll_wait(epfd, ev, m, 0);
 			if (m < max && r == m)
 				simk_stats.batch_truncated++;
+			/* what the kernel stored is a write by this thread as far as the race detector is
+			 * concerned (the simulator itself is not instrumented) */
+			if (r > 0 && __tsan_write_range)
+				__tsan_write_range(ev, (unsigned long)r * sizeof(*ev));
 			return r;
 		}
 	}
@@ -1373,6 +1378,11 @@ ssize_t simk_read(int fd, void *b, size_t n)
 		}
 	}
 	r = read(fd, b, shorten(fd, n, FS_READ));
+	if (r > 0 && __tsan_write_range) {
+		int e = errno;
+		__tsan_write_range(b, (unsigned long)r);
+		errno = e;
+	}
 	if (simk_obs.read_data && r > 0) {
 		int e = errno;
 		simk_obs.read_data(me, fd, b, r);
